@@ -322,7 +322,11 @@ EncodeRaw(t) ==
    obs |-> EncodeView(t.mat) @@ [ids |-> t.obs, md |-> MdNames(t, "observation"), gmd |-> <<>>],
    samp |-> EncodeView([j \in 1..Len(t.samp) |-> Col(t, j)]) @@ [ids |-> t.samp, md |-> MdNames(t, "sample"), gmd |-> <<>>]]
 ModelHdr == [gen |-> "gen", date |-> "d", gmd_obs |-> <<>>, gmd_samp |-> <<>>]
-HNorm(t) == [t EXCEPT !.tid = IF t.tid = "" THEN "No Table ID" ELSE t.tid]
+H5Md(t, ax) == IF Md(t, ax).has
+               THEN [has |-> TRUE, rows |-> [k \in 1..Len(Md(t, ax).rows) |-> SetToSeq(H5Row(t, ax, k))]]
+               ELSE Md(t, ax)
+HNorm(t) == [t EXCEPT !.tid = IF t.tid = "" THEN "No Table ID" ELSE t.tid,
+                      !.omd = H5Md(t, "observation"), !.smd = H5Md(t, "sample")]
 \* what a correct implementation exports / answers is a function of the content alone
 ExportsOf(t) ==
   [tsv  |-> [ok |-> TRUE, obs |-> t.obs, samp |-> t.samp, mat |-> t.mat],
